@@ -46,6 +46,21 @@
     `C03_toplevel_access_specifier`, `C03_toplevel_field` and `C03_access_tracks`: in a class body of
     data members and access specifiers, nested to any depth, every member is reported once with the
     access level in force at its position.
+  * `C03_field_declarators` (`Theorems/FieldDecls.lean`): member statements with ANY NUMBER of declarators —
+    in a class body the declarator loop delivers exactly one `on_class_field` per declarator, in
+    order, each with its own name, the type ITS chain denotes and the access level in force.
+  * `C03_method_declarator` (`Theorems/MethodDecl.lean`, `FnDecl.lean`, `ParamForm.lean`): member functions — in a class
+    body the declarator `ptr-ops f ( parameters ) qualifiers` followed by `;` delivers exactly ONE
+    `on_class_method` with the name, the return type the prefix denotes, the parameters
+    `_parse_parameters` decodes (`C02_parameters` for plain parameter lists of any length), the
+    access level in force in THAT class and exactly the written qualifier flags
+    (`C03_qualifier_flags`), for qualifier sequences of any length.
+  * `C03_bitfield_declarator` (`Theorems/VarDecl.lean`, `FieldForm.lean`): bit-fields — in a class body the declarator
+    `ptr-ops x : width` delivers exactly ONE `on_class_field` whose `bits` is the written decimal
+    width, with the access level in force.
+  * `C03_toplevel_method` (`Theorems/MethodDecl.lean`, `TopLevel.lean`): the same through one iteration of the parse loop —
+    `T ptr-ops f ( p1 , … , pn ) qualifiers ;` in a class body is exactly ONE `on_class_method` with
+    the access level in force and exactly the written qualifier flags.
 -/
 import CxxModel.Blocks
 import CxxModel.Theorems.Events
@@ -54,6 +69,8 @@ import CxxModel.Theorems.AccessForm
 import CxxModel.Parser.Decl
 import CxxModel.Theorems.TopLevel
 import CxxModel.GenCfg
+import CxxModel.Theorems.FieldDecls
+import CxxModel.Theorems.MethodDecl
 namespace Cxx
 
 theorem C03_access_tracks (h : List BOp) (d : Nat) (hd : d < (brun h).length) :
@@ -216,6 +233,123 @@ theorem C03_toplevel_class_end (env : Env) (hc : env.cfg = genLexCfg) (F : Nat) 
           SameParse { w1 with muted := cb.priorMuted, stack := blk :: rest } w3 :=
   toplevel_class_end env (by rw [hc]; exact gen_rules_progress) F c w cl semi b1 b' cb blk rest n sp hstack hg hk htd hname hacc
     htcl hcl htok hs
+
+end
+
+section
+open P
+
+theorem C03_field_declarators (env : Env) (hnf : env.faultAt = none) (F D : Nat) (pt : DType) (hpt : isFnType pt = false)
+    (blkId : Nat) (hdr : BlockHdr) (hk : hdr.kind = .cls) (acc : String) (rest : List Block) :
+    ∀ (ds : List (Dtor × DType)) (last : Dtor × DType) (loc : LocRef) (dox : Option String) (w : World) (b' : Buf) (n : Nat)
+      (blk : Block),
+    blk.id = blkId → blk.hdr = hdr → blk.access = some acc → w.stack = blk :: rest → w.muted = false →
+    (∀ p ∈ ds, p.1.OK pt p.2 ∧ p.1.sep.type = "," ∧ p.1.ops.length + 1 ≤ F) →
+    last.1.OK pt last.2 → last.1.sep.type = ";" → last.1.ops.length + 1 ≤ F →
+    Yields env.cfg w.buf (ds.flatMap (fun p => p.1.toks) ++ last.1.toks) b' → ds.length + 1 ≤ n →
+    ∃ (wF : World) (evs : List Event) (doxs : List (Option String)) (l : LocRef) (blkF : Block),
+      interp env (loopN n (loc, dox) (declaratorBody F (core F (D + 1)) pt {} .none false false)) w = (wF, .ok ()) ∧
+      SigEq b' wF.buf ∧ wF.stack = blkF :: rest ∧ blkF.id = blkId ∧ blkF.hdr = hdr ∧ blkF.access = some acc ∧ blkF.loc = l ∧
+      wF.events = w.events ++ evs ∧ doxs.length = ds.length + 1 ∧
+      evs.map (·.kind) = fieldKinds acc (ds ++ [last]) doxs ∧ (∀ e ∈ evs, e.stateId = blkId ∧ e.parentId = rest.head?.map (·.id)) ∧
+      (∀ d, dox = some d → doxs.head? = some (some d)) ∧
+      wF.delivered = w.delivered + (ds.length + 1) ∧ wF.anon = w.anon ∧ wF.muted = false ∧ wF.nextId = w.nextId :=
+  declarators_fields env hnf F D pt hpt blkId hdr hk acc rest
+
+end
+
+section
+open P
+
+theorem C03_method_declarator (env : Env) (F D : Nat) (pt : DType) (location : LocRef) (doxygen : Option String)
+    (ops : List Tok) (f op semi : Tok) (plist : List Param) (quals : List Tok) (d1 : DType) (m' : Function) (w : World)
+    (bmid bf bo bc bq b' : Buf)
+    (blk : Block) (rest : List Block) (hstack : w.stack = blk :: rest) (hk : blk.hdr.kind = .cls)
+    (hmu : w.muted = false) (hfa : ¬ env.faultAt = some w.delivered)
+    (hpt : isFnType pt = false)
+    (hy : Yields env.cfg w.buf ops bmid) (ha : applyPtrOps pt (ops.map (·.type)) = some d1)
+    (htf : tokenEofOk env.cfg bmid = .ok (some f, bf)) (hf : f.type = "NAME") (hfv : identVal f.value = true)
+    (hto : tokenEofOk env.cfg bf = .ok (some op, bo)) (hop : op.type = "(")
+    (hparams : ∀ W : World, W.buf = bo → ∃ w7, interp env (parseParametersStep F (core F D) true) W = (w7, .ok (plist, false, [])) ∧
+      SameButLog W w7 ∧ w7.buf = bc)
+    (hyq : Yields env.cfg bc quals bq)
+    (haq : applyQuals { plainFunction f d1 doxygen with parameters := plist, isMethod := true, access := blk.access }
+      (quals.map (·.value)) = some m')
+    (hts : tokenEofOk env.cfg bq = .ok (some semi, b')) (hs : semi.type = ";") (hsv : semi.value = ";") (hFq : quals.length + 1 ≤ F)
+    (hF : ops.length + 1 ≤ F) :
+    ∃ (w7 : World) (ev : Event),
+      interp env (declaratorBody F (core F (D + 1)) pt {} .none false false (location, doxygen)) w = (w7, .ok (.inr ())) ∧
+      w7.buf = b' ∧ w7.stack = { blk with loc := location } :: rest ∧
+      w7.events = w.events ++ [ev] ∧ ev.kind = .item (.classMethod m') ∧
+      ev.stateId = blk.id ∧ ev.parentId = rest.head?.map (·.id) ∧
+      w7.delivered = w.delivered + 1 ∧ w7.anon = w.anon ∧ w7.muted = false ∧ w7.nextId = w.nextId ∧
+      w7.mainTok = w.mainTok :=
+  declarator_method env F D pt location doxygen ops f op semi plist quals d1 m' w bmid bf bo bc bq b' blk rest hstack hk hmu hfa
+    hpt hy ha htf hf hfv hto hop hparams hyq haq hts hs hsv hFq hF
+
+end
+
+section
+open P
+
+theorem C03_bitfield_declarator (env : Env) (F D : Nat) (pt : DType) (location : LocRef) (doxygen : Option String)
+    (ops : List Tok) (x colon num tm : Tok) (d1 : DType) (w : World) (bmid bx bc bn b' : Buf)
+    (blk : Block) (rest : List Block) (hstack : w.stack = blk :: rest) (hk : blk.hdr.kind = .cls) (acc : String) (hacc : blk.access = some acc)
+    (hmu : w.muted = false) (hfa : ¬ env.faultAt = some w.delivered)
+    (hpt : isFnType pt = false)
+    (hy : Yields env.cfg w.buf ops bmid) (ha : applyPtrOps pt (ops.map (·.type)) = some d1)
+    (htx : tokenEofOk env.cfg bmid = .ok (some x, bx)) (hx : x.type = "NAME") (hxv : identVal x.value = true)
+    (htc : tokenEofOk env.cfg bx = .ok (some colon, bc)) (hc : colon.type = ":")
+    (htn : tokenEofOk env.cfg bc = .ok (some num, bn)) (hn : num.type = "INT_CONST_DEC") (hdig : allDigits num.value = true)
+    (httm : tokenEofOk env.cfg bn = .ok (some tm, b')) (htm : tm.type = ";" ∨ tm.type = ",")
+    (hF : ops.length + 1 ≤ F) :
+    ∃ (w7 : World) (c : CTok) (dox : Option String) (ev : Event),
+      interp env (declaratorBody F (core F (D + 1)) pt {} .none false false (location, doxygen)) w =
+        (w7, .ok (afterDeclarator tm c)) ∧
+      SigEq b' w7.buf ∧ w7.stack = { blk with loc := location } :: rest ∧
+      w7.events = w.events ++ [ev] ∧ ev.kind = .item (.classField { plainField x d1 acc dox with bits := some num.value.toNat! }) ∧
+      ev.stateId = blk.id ∧ ev.parentId = rest.head?.map (·.id) ∧ (∀ d, doxygen = some d → dox = some d) ∧
+      w7.delivered = w.delivered + 1 ∧ w7.anon = w.anon ∧ w7.muted = false ∧ w7.nextId = w.nextId ∧
+      w7.mainTok = w.mainTok :=
+  declarator_field_bits env F D pt location doxygen ops x colon num tm d1 w bmid bx bc bn b' blk rest hstack hk acc hacc hmu hfa
+    hpt hy ha htx hx hxv htc hc htn hn hdig httm htm hF
+
+end
+
+section
+open P
+
+theorem C03_toplevel_method (env : Env) (hc : env.cfg = genLexCfg) (F D : Nat) (w : World)
+    (first : Tok) (pairs : List (Tok × Tok)) (ops : List Tok) (x op : Tok) (ps : List (PItem × DType × Tok)) (last : PItem × DType) (cp semi : Tok) (quals : List Tok) (m' : Function) (d1 : DType) (b1 b0 bmid bx bo bc bq b' : Buf)
+    (blk : Block) (rest : List Block) (hstack : w.stack = blk :: rest) (hk : blk.hdr.kind = .cls)
+    (hmu : w.muted = false) (hfa : ¬ env.faultAt = some w.delivered)
+    (htok : tokenEofOk env.cfg w.buf = .ok (some first, b1))
+    (hty : first.type = "NAME") (htv : identVal first.value = true)
+    (hall : ∀ p ∈ pairs, p.1.type = "DBL_COLON" ∧ p.2.type = "NAME" ∧ plainVal p.2.value = true)
+    (hy0 : Yields env.cfg b1 (pairs.flatMap (fun p => [p.1, p.2])) b0)
+    (hops : opsHeadOk ops = true) (hopsv : ∀ o ∈ ops, o.value ≠ "auto")
+    (hy : Yields env.cfg b0 ops bmid)
+    (ha : applyPtrOps (.type (.mk (.name first.value none :: pairs.map (fun p => .name p.2.value none)) none false) false false)
+      (ops.map (·.type)) = some d1)
+    (htx : tokenEofOk env.cfg bmid = .ok (some x, bx)) (hx : x.type = "NAME") (hxv : identVal x.value = true)
+    (hto : tokenEofOk env.cfg bx = .ok (some op, bo)) (hop : op.type = "(")
+    (hallp : ∀ q ∈ ps, q.1.OK q.2.1 ∧ q.2.2.type = "," ∧ q.2.2.value ≠ ")" ∧ q.1.pairs.length + q.1.ops.length + 2 ≤ F)
+    (hlastp : last.1.OK last.2) (hlF : last.1.pairs.length + last.1.ops.length + 2 ≤ F) (hcp : cp.type = ")") (hcpv : cp.value = ")")
+    (hyp : Yields env.cfg bo (ps.flatMap (fun q => q.1.toks ++ [q.2.2]) ++ (last.1.toks ++ [cp])) bc) (hFp : ps.length + 1 ≤ F)
+    (hyq : Yields env.cfg bc quals bq)
+    (hsemi : tokenEofOk env.cfg bq = .ok (some semi, b')) (hs : semi.type = ";") (hsv : semi.value = ";") (hFq : quals.length + 1 ≤ F)
+    (hF : pairs.length + ops.length + 2 ≤ F) :
+    ∀ (d : Option String) (bD : Buf), getDoxygen env.cfg env.mcRe w.buf = .ok (d, bD) →
+    applyQuals { plainFunction x d1 d with parameters := ps.map (fun q => q.1.param q.2.1) ++ [last.1.param last.2], isMethod := true, access := blk.access }
+      (quals.map (·.value)) = some m' →
+    ∃ (w7 : World) (ct : CTok) (ev : Event),
+      interp env (mainBody F (core F (D + 1 + 1 + 1 + 1)) none) w = (w7, .ok (.inl none)) ∧
+      w7.buf = b' ∧ ct.value = first.value ∧ w7.stack = { blk with loc := .tok ct.sidx } :: rest ∧
+      w7.events = w.events ++ [ev] ∧ ev.kind = .item (.classMethod m') ∧
+      ev.stateId = blk.id ∧ ev.parentId = rest.head?.map (·.id) ∧
+      w7.delivered = w.delivered + 1 ∧ w7.anon = w.anon ∧ w7.muted = false ∧ w7.nextId = w.nextId :=
+  toplevel_method env (by rw [hc]; exact gen_rules_progress) F D w first pairs ops x op ps last cp semi quals m' d1 b1 b0 bmid bx bo bc bq b' blk rest hstack hk hmu hfa
+    htok hty htv hall hy0 hops hopsv hy ha htx hx hxv hto hop hallp hlastp hlF hcp hcpv hyp hFp hyq hsemi hs hsv hFq hF
 
 end
 
